@@ -170,6 +170,8 @@ func preludeDecls(pkg string) string {
 	return "package " + pkg + `
 
 import (
+	vcontext "context"
+	vnet "net"
 	vsync "sync"
 	vtime "time"
 )
@@ -202,6 +204,16 @@ func vInsertionSort(n int, less func(i, j int) bool, swap func(i, j int)) {
 			swap(j, j-1)
 		}
 	}
+}
+
+// the engine's model of (*net.Dialer).DialContext: the harness scripts the outcome
+var vDialFn func(address string) (vnet.Conn, error)
+
+func vDialContext(d *vnet.Dialer, ctx vcontext.Context, network, address string) (vnet.Conn, error) {
+	if vDialFn == nil {
+		return nil, vnet.UnknownNetworkError("no dialer scripted")
+	}
+	return vDialFn(address)
 }
 
 // helper of the engine's model of time.AfterFunc
